@@ -214,6 +214,14 @@ class Normalizer:
                     self.generic_impl_methods.append((key, gens, deff))
                 else:
                     self.impl_methods[key] = deff
+        # N12: a pinned function K that has become `H(params.., |x| x)` for a new helper H taking a continuation
+        # (`client_id_header(req) = self.for_client(req, |id| id)`): H -> (K, unit)
+        self.cps_wrappers = {}
+        for (unit, deff), b in self.bodies.items():
+            if deff in self.keep:
+                h = self._identity_wrapper_of(unit, b)
+                if h is not None:
+                    self.cps_wrappers.setdefault(h, []).append((unit, deff))
         self.done = set()
         self.busy = set()
         self.notes = []
@@ -521,6 +529,170 @@ class Normalizer:
         self.bind_returns(caller, cb, off, boff, lambda ret, sp: [self.assign(res_place, self.use(self.mv(ret)), sp)], cont)
         return entry
 
+    # ------------------------------------------------------------------ N12: helper with a continuation
+    def _identity_wrapper_of(self, unit, b):
+        """def of H when body b is exactly `H(p1, .., pn, |x| x)` (arguments = b's parameters in order, possibly reborrowed)."""
+        blocks = [x for x in b["blocks"] if not x["cleanup"]]
+        calls = [x for x in blocks if x["term"]["k"] == "call"]
+        if len(calls) != 1 or b.get("kind") not in ("Fn", "AssocFn") or b.get("coroutine"):
+            return None
+        t = calls[0]["term"]
+        c = t["callee"]
+        if c.get("ikind") != "item" or not c.get("resolved") or c["resolved"] in self.keep or t.get("target") is None:
+            return None
+        if t["dest"]["l"] != 0 or t["dest"]["proj"] or len(t["args"]) != b["arg_count"] + 1:
+            return None
+        if any(x["term"]["k"] not in ("goto", "drop", "return", "call") for x in blocks):
+            return None
+        for i, a in enumerate(t["args"][:-1]):
+            # each argument is parameter i+1, directly or through a reborrow
+            if a["k"] == "const":
+                return None
+            l = a["p"]["l"]
+            hops = 0
+            while not (1 <= l <= b["arg_count"]) and hops < 4:
+                ds = self.defs_of(b, l)
+                if len(ds) != 1 or ds[0][0] != "stmt":
+                    return None
+                rv = ds[0][2]["rv"]
+                src = rv["p"] if rv["k"] == "ref" else rv["op"].get("p") if rv["k"] == "use" and rv["op"]["k"] != "const" else None
+                if src is None or any(e["k"] != "deref" for e in src["proj"]):
+                    return None
+                l = src["l"]
+                hops += 1
+            if l != i + 1:
+                return None
+        w = self.chase(b, t["args"][-1])
+        if w is None or w[0] != "closure":
+            return None
+        u, cb = self.lookup(unit, w[1])
+        if cb is None or cb["arg_count"] != 2 or cb.get("upvars"):
+            return None
+        cblocks = [x for x in cb["blocks"] if not x["cleanup"]]
+        if len(cblocks) != 1 or cblocks[0]["term"]["k"] != "return":
+            return None
+        st = [x for x in cblocks[0]["stmts"] if x["k"] == "assign"]
+        if len(st) != 1 or st[0]["p"]["l"] != 0 or st[0]["p"]["proj"] or st[0]["rv"]["k"] != "use" or st[0]["rv"]["op"]["k"] == "const" \
+                or st[0]["rv"]["op"]["p"]["l"] != 2 or st[0]["rv"]["op"]["p"]["proj"]:
+            return None
+        return c["resolved"]
+
+    def _tail_continuation(self, hb):
+        """H calls its last parameter (the continuation) exactly once, and the result goes only into `Ok(result)` returned
+        at once: H(args, f) is K(args).map(f) for K = H(args, identity)."""
+        f = hb["arg_count"]
+        carriers = {f}
+        for x in hb["blocks"]:
+            for st in x["stmts"]:
+                if st["k"] == "assign" and st["rv"]["k"] == "use" and st["rv"]["op"]["k"] == "move" and not st["rv"]["op"]["p"]["proj"] \
+                        and st["rv"]["op"]["p"]["l"] == f and not st["p"]["proj"] and len(self.defs_of(hb, st["p"]["l"])) == 1:
+                    carriers.add(st["p"]["l"])
+        sites = []
+        for x in hb["blocks"]:
+            t = x["term"]
+            if x["cleanup"] or t["k"] != "call":
+                continue
+            if any(pl["l"] in carriers for pl in self._places_in(t["args"]) + self._places_in(t["callee"])):
+                sites.append(x)
+        if len(sites) != 1:
+            return False
+        t = sites[0]["term"]
+        if t["callee"].get("def") not in FN_TRAIT_CALLS or t["args"][0]["k"] == "const" or t["args"][0]["p"]["l"] not in carriers or t["args"][0]["p"]["proj"] \
+                or t.get("target") is None or t["dest"]["proj"]:
+            return False
+        for x in hb["blocks"]:
+            if x["cleanup"]:
+                continue
+            for st in x["stmts"]:
+                if st["k"] != "assign":
+                    continue
+                if any(pl["l"] in carriers for pl in self._places_in(st["rv"])) and not (st["p"]["l"] in carriers and st["rv"]["k"] == "use"):
+                    return False
+        r = t["dest"]["l"]
+        # from the call on: straight to the return, the result wrapped in Ok on the way
+        cur, wrapped, steps = t["target"], False, 0
+        while steps < 30:
+            steps += 1
+            x = hb["blocks"][cur]
+            for st in x["stmts"]:
+                if st["k"] != "assign":
+                    continue
+                used = [pl for pl in self._places_in(st["rv"]) if pl["l"] == r]
+                if not used:
+                    continue
+                rv = st["rv"]
+                if rv["k"] == "use" and not st["p"]["proj"] and not used[0]["proj"]:
+                    r = st["p"]["l"]
+                elif rv["k"] == "aggregate" and rv.get("adt") == RESULT and rv.get("variant") == "Ok" and not wrapped and not used[0]["proj"] \
+                        and not st["p"]["proj"]:
+                    wrapped = True
+                    r = st["p"]["l"]
+                else:
+                    return False
+            tt = x["term"]
+            if tt["k"] == "return":
+                return wrapped and r == 0
+            if tt["k"] in ("goto", "drop"):
+                cur = tt["target"]
+                continue
+            return False
+        return False
+
+    def try_cps_wrapper(self, unit, body, bb):
+        t = body["blocks"][bb]["term"]
+        c = t["callee"]
+        deff = c.get("resolved")
+        if c.get("ikind") != "item" or deff not in self.cps_wrappers or t.get("target") is None or len(self.cps_wrappers[deff]) != 1:
+            return False
+        ku, kdef = self.cps_wrappers[deff][0]
+        if (unit, body["def"]) == (ku, kdef):
+            return False               # K itself keeps (a spliced copy of) H's body
+        hu, hb = self.lookup(unit, deff)
+        kb = self.bodies.get((ku, kdef))
+        if hb is None or kb is None or len(t["args"]) != hb["arg_count"] or not self._tail_continuation(hb):
+            return False
+        fop = t["args"][-1]
+        w = self.chase(body, fop)
+        if w is None or w[0] not in ("fn", "closure"):
+            return False
+        if w[0] == "closure":
+            u, cb = self.lookup(unit, w[1])
+            if cb is None or (u, w[1]) in self.busy or cb.get("coroutine"):
+                return False
+        dty = split_targs(t["dest"]["ty"])
+        kty = kb["locals"][0]["ty"]
+        kta = split_targs(kty)
+        if not t["dest"]["ty"].startswith(RESULT + "<") or len(dty) != 2 or not kty.startswith(RESULT + "<") or len(kta) != 2:
+            return False
+        span = t["span"]
+        dest, target = copy.deepcopy(t["dest"]), t["target"]
+        saved = (len(body["locals"]), len(body["blocks"]))
+        tmp = self.new_local(body, kty, "result of %s (the helper with the identity continuation)" % kdef.rsplit("::", 1)[-1])
+        rloc = self.new_local(body, dty[0], "result of the continuation")
+        tp = self.place(tmp, kty)
+        fin_ok = self.new_block(body, [self.assign(copy.deepcopy(dest), self.agg(RESULT, "Ok", [self.mv(self.place(rloc, dty[0]))]), span)],
+                                {"k": "goto", "target": target, "span": span})
+        ent_ok = self.emit_invoke(unit, body, fop, w, [self.mv(self.variant_payload(tp, RESULT, "Ok", 0, kta[0]))], self.place(rloc, dty[0]), fin_ok, span)
+        if ent_ok is None:
+            del body["locals"][saved[0]:]
+            del body["blocks"][saved[1]:]
+            return False
+        ent_err = self.new_block(body, [self.assign(copy.deepcopy(dest), self.agg(RESULT, "Err", [self.mv(self.variant_payload(tp, RESULT, "Err", 1, kta[1]))]), span)],
+                                 {"k": "goto", "target": target, "span": span})
+        st, sw = self._disc_switch(body, tp, RESULT, ent_ok, ent_err, span, "continuation-passing helper")
+        swb = self.new_block(body, [st], sw)
+        kc = {"ty": "", "def": kdef, "def_args": kdef, "krate": kdef.split("::")[0].lstrip("<"), "name": kdef.rsplit("::", 1)[-1], "targs": [],
+              "resolved": kdef, "resolved_krate": kdef.split("::")[0].lstrip("<"), "ikind": "item", "synthetic": True}
+        for k_ in ("impl_self", "resolved_impl_self", "self_ty"):
+            if c.get(k_):
+                kc[k_] = c[k_]
+        body["blocks"][bb]["term"] = {"k": "call", "callee": kc, "args": t["args"][:-1], "dest": tp, "target": swb, "unwind": t.get("unwind"),
+                                      "fn_span": t.get("fn_span", span), "span": span}
+        if w[0] == "closure":
+            self.consumed.add((self.lookup(unit, w[1])[0], w[1]))
+        self.notes.append("N12 %s(.., f) rewritten as %s(..).map(f) in %s" % (deff.rsplit("::", 1)[-1], kdef.rsplit("::", 1)[-1], body["def"]))
+        return True
+
     # ------------------------------------------------------------------ N1: helper functions
     def try_inline_fn(self, unit, body, bb):
         t = body["blocks"][bb]["term"]
@@ -531,7 +703,8 @@ class Normalizer:
             cand = self.from_impl(unit, c["targs"][1], c["targs"][0])
             if cand is not None:
                 c = dict(c, resolved=cand, ikind="item", targs=[])
-        if c.get("trait") and c.get("ikind") != "item" and c.get("def_args") and "resolved" not in c:
+        if c.get("def_args") and ((c.get("trait") and c.get("ikind") != "item" and "resolved" not in c)
+                                  or (c.get("synthetic") and self.lookup(unit, c.get("resolved") or "")[1] is None)):
             # `<A as Trait>::method` inside a generic helper, now that A is known: the impl method that runs
             cand = self.impl_methods.get(c["def_args"])
             if cand is None:
@@ -1780,7 +1953,14 @@ class Normalizer:
             if len(ds) != 1 or ds[0][0] != "stmt" or ds[0][1] != b["i"] or ds[0][2]["rv"]["k"] != "discriminant":
                 continue
             rv = ds[0][2]["rv"]
-            kv = self.known_variant(body, rv["p"])
+            sp = rv["p"]
+            if sp["proj"] and sp["proj"][0]["k"] == "deref":
+                # `match *self` / `match self` on a reference (`fn sql(&self)`): the value the reference points to
+                np = self.norm_place(body, sp)
+                if np is None or np[1]:
+                    continue
+                sp = self.place(np[0], sp.get("ty", ""))
+            kv = self.known_variant(body, sp)
             if kv is None or kv[0] != rv.get("adt"):
                 continue
             dv = [v["discr"] for v in rv.get("variants", []) if v["name"] == kv[1]]
@@ -1835,7 +2015,7 @@ class Normalizer:
                 b = body["blocks"][i]
                 if not b["cleanup"] and b["term"]["k"] == "call" and len(body["blocks"]) < 4000:
                     self._unit = unit
-                    if (self.try_inline_fn(unit, body, i) or self.try_fn_call(unit, body, i) or self.try_question_conv(unit, body, i) or self.try_combinator(unit, body, i) or self.try_transpose(body, i) or self.try_option_misc(unit, body, i) or self.try_array_contains(body, i)
+                    if (self.try_cps_wrapper(unit, body, i) or self.try_inline_fn(unit, body, i) or self.try_fn_call(unit, body, i) or self.try_question_conv(unit, body, i) or self.try_combinator(unit, body, i) or self.try_transpose(body, i) or self.try_option_misc(unit, body, i) or self.try_array_contains(body, i)
                             or self.try_poll(unit, body, i) or self.try_cmp(body, i) or self.try_int_from(body, i) or self.try_entry(body, i)
                             or self.try_iter_loop(unit, body, i) or self.try_range(body, i)):
                         changed = True
